@@ -43,7 +43,7 @@ def run(ck, w):
     g = w.graph
 
     # ---- 1. value nondeterminism -> written bytes -------------------------------------------------------
-    T = taint.Taint(w, set(), decoded_enums=set(), source_calls=VALUE_SOURCES)
+    T = taint.Taint(w, set(), decoded_enums=set(), source_calls=VALUE_SOURCES, bounded_sanitize=False)
     iters = T.solve()
     ck.stats["nondet_taint"] = {"iterations": iters, "heap_fields_tainted": sorted("%s.%s" % x for x in T.heap)}
     o = ck.ob("C17.1a", "no path or content given to Transport::write / create_dir depends on the clock, randomness or the environment, "
